@@ -12,6 +12,12 @@ import NitroVerif.Model.SkipConc
     start <t> it_next <i>           (bad-op unless iterator i exists and is valid) -> at <POINT> | ret <key|end>
     start <t> it_close <i>                                                -> ret
     start <t> it_interval <i> <n>   SetRefreshInterval(n); bad-op unless iterator i exists and n ≥ 1 -> ret
+    start <t> it_refresh <i>        the public Refresh() called by the user; bad-op unless iterator i exists and is valid
+                                    (same test as it_next); parks at ITER_REFRESH, the following `step`s run
+                                    Seek(item under the cursor); `count` is not changed     -> at ITER_REFRESH, then at <POINT>… | ret <key|end>
+    start <t> it_pause <i>          Pause(): releases the barrier session only; the model is NOT touched;
+    start <t> it_resume <i>         Resume(): re-acquires a barrier session only; the model is NOT touched;
+                                    both: bad-op unless thread t exists and is idle and iterator i exists (of thread t) -> ret
     step <t>                        (bad-op when t is idle)               -> at <POINT> | ret <value>
     walk                            (bad-op unless quiescent)             -> lvl=<level> L0=<list>;L1=<list>;…
     stats                                                                 -> nodes=<n> soft=<n> allocs=<n> frees=<n> dist=<…>
@@ -74,7 +80,15 @@ def parseOp (names : List String) : List String → Option (List String × Op)
     match n.toNat? with
     | some n => let r := internName names i; some (r.1, .itInterval r.2 n)
     | none => none
+  | ["it_refresh", i] => let r := internName names i; some (r.1, .itRefresh r.2)
   | _ => none
+
+/-- `it_pause` / `it_resume`: Pause/Resume only release / re-acquire the barrier session, which M5 does not model.
+    Answer `ret` when thread `t` exists, is idle and owns an iterator of that name; the state is not changed. -/
+def pauseResume (s : SkipConcSt) (t : Nat) (name : String) : String :=
+  match s.sys.threads[t]?, s.names.idxOf? name with
+  | some th, some i => if isIdle th.pc && (th.iter? i).isSome then "ret" else "bad-op"
+  | _, _ => "bad-op"
 
 def skipConcStep (s : SkipConcSt) (toks : List String) : SkipConcSt × String :=
   match toks with
@@ -92,6 +106,10 @@ def skipConcStep (s : SkipConcSt) (toks : List String) : SkipConcSt × String :=
       if s.made || n < 1 || n > 64 || !(m == "mem=go" || m == "mem=mm" || m == "mem=mmfree") then (s, "bad-op")
       else ({ sys := { threads := List.replicate n {} }, made := true }, "ok")
     | none => (s, "bad-op")
+  | ["start", t, "it_pause", i] | ["start", t, "it_resume", i] =>
+    match s.made, t.toNat? with
+    | true, some t => (s, pauseResume s t i)
+    | _, _ => (s, "bad-op")
   | "start" :: t :: rest =>
     match s.made, t.toNat?, parseOp s.names rest with
     | true, some t, some (names, op) =>
